@@ -6,9 +6,10 @@
 
    Translated: verifier.checkRevocationResults, verifier.revocationFinalResult.
    Certificates are opaque ([C]); Subject.String() is an oracle [subj] (any function).
-   Not translated (GoLite refuses the comparison of an interface value with nil):
-   verifier.verifyRevocation itself; [gen_aggregate] composes the two generated
-   functions the way its lines 625-646 do (check -> inconclusive; switch on the verdict).
+   and the entry function ( *verifier).verifyRevocation (validators = nilable function fields,
+   AuthenticSigningTime = oracle). [gen_aggregate] composes the two callees the way lines 625-646
+   of verifyRevocation do (check -> inconclusive; switch on the verdict); the theorems at the end
+   tie the generated verifyRevocation itself to it and to the model.
 
    Reading a Go answer as the model's input: [abstracts x results chain] says that
    x_results x is the slice entry by entry (nil -> None, Result 1/2/0/3/other ->
@@ -169,6 +170,59 @@ Theorem C05_gen_unknown :
       gen_aggregate C subj results chain = Some (Unknown (subj c)).
 Proof. exact gen_unknown. Qed.
 Print Assumptions C05_gen_unknown.
+
+(* ---------- ( *verifier).verifyRevocation: the entry function of the step ---------- *)
+(* [ast] = SignerInfo.AuthenticSigningTime (oracle), [subj] = Subject.String() (oracle): both quantified
+   without hypothesis - the theorems hold for a [subj] that returns "" for some certificate (empty
+   subject DN) or the same string for two certificates. [rev_answer v env] = what the validator that
+   the function selects (context-aware one first, else the deprecated client; None: both nil) answers
+   when asked with the COMPLETE chain and the time [rev_time env]; [xin a v env] = the model's input
+   read off the verifier's fields, the envelope and that answer. The function panics (None) only on a
+   nil outcome / EnvelopeContent / VerificationLevel. *)
+
+(* its result, in terms of the two translated callees *)
+Theorem C05_gen_verifyRevocation_spec :
+  forall (C : Type) (subj : C -> string) ast v outcome o env lvl,
+    ptr_val outcome = Some o ->
+    ptr_val (VerificationOutcome_EnvelopeContent C o) = Some env ->
+    ptr_val (VerificationOutcome_VerificationLevel C o) = Some lvl ->
+    gen_verifier_verifier_verifyRevocation C subj ast v outcome
+    = Some (PNew (mk_ValidationResult "revocation" (enf lvl) (step_err C subj ast v env))).
+Proof. exact gen_verifyRevocation_spec. Qed.
+Print Assumptions C05_gen_verifyRevocation_spec.
+
+(* = the model: the class of the Error it returns is xmodel's revocation result (no validator, error,
+   incomplete answer -> "unable to check"; revoked; unknown; nil = Pass) *)
+Theorem C05_gen_verifyRevocation_equiv :
+  forall (C : Type) (subj : C -> string) ast a v outcome o env lvl, a <> Skip ->
+    ptr_val outcome = Some o ->
+    ptr_val (VerificationOutcome_EnvelopeContent C o) = Some env ->
+    ptr_val (VerificationOutcome_VerificationLevel C o) = Some lvl ->
+    exists r c, gen_verifier_verifier_verifyRevocation C subj ast v outcome = Some (PNew r)
+                /\ ValidationResult_Type r = "revocation" /\ ValidationResult_Action r = enf lvl
+                /\ xo_result (xmodel (xin C subj ast a v env)) = Some c
+                /\ class_rel (ValidationResult_Error r) c.
+Proof. exact gen_verifyRevocation_equiv. Qed.
+Print Assumptions C05_gen_verifyRevocation_equiv.
+
+(* C05_full_pass_iff transported onto the entry function: its Error is nil iff the model passes, iff
+   the selected validator answered without error with exactly one non-nil result per certificate of
+   the chain, each OK (1) or non-revokable (2) - for ALL subject oracles: the decision never rests
+   on the subject text *)
+Theorem C05_gen_verifyRevocation_pass_iff :
+  forall (C : Type) (subj : C -> string) ast a v outcome o env lvl, a <> Skip ->
+    ptr_val outcome = Some o ->
+    ptr_val (VerificationOutcome_EnvelopeContent C o) = Some env ->
+    ptr_val (VerificationOutcome_VerificationLevel C o) = Some lvl ->
+    exists r, gen_verifier_verifier_verifyRevocation C subj ast v outcome = Some (PNew r) /\
+      (ValidationResult_Error r = None <-> xo_result (xmodel (xin C subj ast a v env)) = Some Pass) /\
+      (ValidationResult_Error r = None <->
+         exists results, rev_answer C ast v env = Some (results, None) /\
+           List.length results = List.length (chain_of C env) /\
+           Forall (fun p => exists cr, ptr_val p = Some cr /\
+                      (CertRevocationResult_Result cr = 1%Z \/ CertRevocationResult_Result cr = 2%Z)) results).
+Proof. exact gen_verifyRevocation_pass_iff. Qed.
+Print Assumptions C05_gen_verifyRevocation_pass_iff.
 
 (* ---------- the body before fix a146158 (finding F3) ---------- *)
 (* [loop2_v0] is the inner loop as translated at ccdc027 (a copy in C05_GenProofs.v, not regenerated):
